@@ -66,6 +66,8 @@ def make_case(rng, max_obj, max_sp, labelled=None, hostile=False, colors=False, 
         case["unordered"] = rng.random() < 0.4 if unordered is None else unordered
     if colors:
         case["colors"] = True
+    if rng.random() < 0.3:
+        case["unnamed_internal"] = True
     return case
 
 
@@ -95,6 +97,8 @@ class Scene:
             def go(v):
                 n = Tree()
                 n.name = t.name[v] if not t.children[v] else f"{prefix}{v}"
+                if t.children[v] and prefix == "O" and case.get("unnamed_internal"):
+                    n.name = ""  # ancestors left unnamed, as after parsing a plain Newick string
                 nodes[v] = n
                 for c in t.children[v]:
                     n.add_child(go(c))
